@@ -2188,8 +2188,9 @@ class GlobalStatsCalculator:
     def shard_stats(self, metric_name):
         values = self.store.get_raw(metric_name, mapper=lambda doc: doc["per-shard"])
         unit = self.store.get_unit(metric_name)
-        if values:
-            flat_values = [w for v in values for w in v]
+        flat_values = [w for v in values for w in v] if values else []
+        # records with an empty per-shard array (shard level of the stats response not available) contribute nothing
+        if flat_values:
             return {
                 "min": min(flat_values),
                 "median": statistics.median(flat_values),
